@@ -547,8 +547,10 @@ class LoadEnum:
 # 1. lookup precedence (sparser.py): "an exact name beats any pattern, among patterns the longest match wins"
 # ======================================================================================================================
 def pat_matches(p, name):
-    """the pattern (wrapped in a capture group, as the code does) matches somewhere in the name: assumed re semantics"""
-    return uf('re_search_matches', bool, f'({p})', name)
+    """the pattern (wrapped in a capture group, as the code does) is a valid regular expression that matches somewhere
+    in the name: assumed re semantics.  A pattern that is not a valid regular expression matches nothing (the XSD accepts
+    any string as pattern)."""
+    return uf('re_valid', bool, f'({p})') and uf('re_search_matches', bool, f'({p})', name)
 
 
 def len_match(p, name):
